@@ -396,3 +396,123 @@ Proof.
   destruct (from_u64_prefix _ _) as [q| | | |]; try reflexivity. cbn [obind omap].
   destruct (Prim.mat_eqb (mat_tuple q) (1, 0, 0, 1, true)); reflexivity.
 Qed.
+
+(* ---------------- Matrix::apply and Matrix::from on Uint ---------------- *)
+From RV.Model Require Add Conv Shift Mul Bits.
+From RV.Proofs Require Import PfGenAdd PfGenMul PfGenShift.
+From RV.Proofs Require PfGcdUint PfModelsAgree PfShift PfConv PfBits.
+From RV.Run Require RunC06.
+
+Section ApplyFrom.
+  Variable bits : Z.
+  Hypothesis H0 : 0 <= bits.
+  Hypothesis HB : nlimbs bits < B.
+  Let HB' : nlimbs bits <= B. Proof. lia. Qed.
+
+  Lemma g_wmul_umul a b : canon bits a -> canon bits b ->
+    g_wrapping_mul bits (nlimbs bits) a b = umul bits a b.
+  Proof.
+    intros (La & Wa & _) (Lb & Wb & _).
+    rewrite PfModelsAgree.agree_gcdmatrix_umul. exact (g_wrapping_mul_eq bits a b H0 HB' La Lb Wa Wb).
+  Qed.
+
+  Lemma gen_lin_eq {T} x a y b (K : list Z -> outcome T) :
+    word x -> word y -> canon bits a -> canon bits b ->
+    (do t1 <- Conv.from_of (Conv.try_from_u64 bits x) ; do t2 <- g_wrapping_mul bits (nlimbs bits) t1 a ;
+     do t3 <- Conv.from_of (Conv.try_from_u64 bits y) ; do t4 <- g_wrapping_mul bits (nlimbs bits) t3 b ;
+     do t5 <- g_wrapping_sub bits (nlimbs bits) t2 t4 ; K t5)
+    = (do c <- lin bits x a y b ; K c).
+  Proof.
+    intros Wx Wy Ca Cb. unfold lin.
+    change (Conv.from_of (Conv.try_from_u64 bits x)) with (uint_from_u64 bits x).
+    change (Conv.from_of (Conv.try_from_u64 bits y)) with (uint_from_u64 bits y).
+    destruct (Z.lt_ge_cases x (2 ^ bits)) as [Fx|Fx].
+    2:{ rewrite (PfGcdUint.uint_from_u64_panic bits x H0 Wx Fx). reflexivity. }
+    rewrite (PfGcdUint.uint_from_u64_ok bits x H0 Wx Fx). cbn [obind].
+    destruct (PfGcdUint.canon_uint_of_val bits x H0 ltac:(unfold word in Wx; lia)) as [Cx _].
+    rewrite (g_wmul_umul _ _ Cx Ca).
+    destruct (PfGcdUint.umul_spec bits _ _ H0 Cx Ca) as (p & Ep & Cp & _). rewrite Ep. cbn [obind].
+    destruct (Z.lt_ge_cases y (2 ^ bits)) as [Fy|Fy].
+    2:{ rewrite (PfGcdUint.uint_from_u64_panic bits y H0 Wy Fy). reflexivity. }
+    rewrite (PfGcdUint.uint_from_u64_ok bits y H0 Wy Fy). cbn [obind].
+    destruct (PfGcdUint.canon_uint_of_val bits y H0 ltac:(unfold word in Wy; lia)) as [Cy _].
+    rewrite (g_wmul_umul _ _ Cy Cb).
+    destruct (PfGcdUint.umul_spec bits _ _ H0 Cy Cb) as (q & Eq & Cq & _). rewrite Eq. cbn [obind].
+    destruct Cp as (Lp & _), Cq as (Lq & _).
+    rewrite (g_wrapping_sub_eq bits p q H0 HB' Lp Lq). reflexivity.
+  Qed.
+
+  Definition words_mat (m : mat) : Prop := word (m0 m) /\ word (m1 m) /\ word (m2 m) /\ word (m3 m).
+
+  Theorem g_mat_apply_eq m a b : words_mat m -> canon bits a -> canon bits b ->
+    g_mat_apply bits (nlimbs bits) (mat_tuple m) a b = apply bits m a b.
+  Proof.
+    intros (W0 & W1 & W2 & W3) Ca Cb. unfold g_mat_apply, apply, mat_tuple, mat_0, mat_1, mat_2, mat_3, mat_4.
+    destruct (bits =? 0); [reflexivity|].
+    destruct (m4 m).
+    - rewrite (gen_lin_eq (m0 m) a (m1 m) b) by assumption.
+      destruct (lin bits (m0 m) a (m1 m) b) as [c| | | |]; try reflexivity. cbn [obind].
+      rewrite (gen_lin_eq (m3 m) b (m2 m) a) by assumption.
+      destruct (lin bits (m3 m) b (m2 m) a) as [d| | | |]; reflexivity.
+    - rewrite (gen_lin_eq (m1 m) b (m0 m) a) by assumption.
+      destruct (lin bits (m1 m) b (m0 m) a) as [c| | | |]; try reflexivity. cbn [obind].
+      rewrite (gen_lin_eq (m2 m) a (m3 m) b) by assumption.
+      destruct (lin bits (m2 m) a (m3 m) b) as [d| | | |]; reflexivity.
+  Qed.
+End ApplyFrom.
+
+Lemma to_u64_cases bits a : 0 <= bits -> canon bits a ->
+  to_u64 bits a = if eval a <? B then Val (eval a) else Panic.
+Proof.
+  intros H Ha. unfold to_u64. rewrite PfConv.try_to_int_spec by (auto; cbn; lia).
+  unfold Conv.prim_max, u64p. cbn [Conv.psigned Conv.pw Conv.to_of obind]. rewrite <- B_pow.
+  destruct (Z.leb_spec (eval a) (B - 1)), (Z.ltb_spec (eval a) B); try lia; reflexivity.
+Qed.
+Lemma to_u128_cases bits a : 0 <= bits -> canon bits a ->
+  to_u128 bits a = if eval a <? BB then Val (eval a) else Panic.
+Proof.
+  intros H Ha. unfold to_u128. rewrite PfConv.try_to_128_spec by (auto; reflexivity).
+  unfold Conv.prim_max, u128p. cbn [Conv.psigned Conv.pw Conv.to_of obind]. change (2 ^ 128) with BB.
+  destruct (Z.leb_spec (eval a) (BB - 1)), (Z.ltb_spec (eval a) BB); try lia; reflexivity.
+Qed.
+
+Theorem g_mat_from_eq bits a b :
+  0 <= bits -> bits + 7 < B -> 64 * nlimbs bits < B -> canon bits a -> canon bits b ->
+  g_mat_from bits (nlimbs bits) a b = omap mat_tuple (from bits a b).
+Proof.
+  intros H0 HbB HB Ca Cb. pose proof (nlimbs_nonneg bits H0) as HL.
+  pose proof (canon_range bits a H0 Ca) as Ra. pose proof (canon_range bits b H0 Cb) as Rb.
+  pose proof Ca as (La & Wa & _). pose proof Cb as (Lb & Wb & _).
+  unfold g_mat_from, from, g_cmp, Add.ult.
+  destruct (Add.limbs_cmp a b); cbn [negb]; try reflexivity.
+  all: destruct (g_lz_family_eq bits a H0 HbB HB La Wa) as (_ & _ & Ebl & _); rewrite Ebl;
+       rewrite PfModelsAgree.agree_conv_bit_len, (PfBits.bit_len_spec bits a H0 Ca); cbn [obind];
+       change (Conv.to_of (Conv.try_to_int bits {| Conv.pw := 64; Conv.psigned := false |} ?x)) with (to_u64 bits x);
+       change (Conv.to_of (Conv.try_to_128 bits {| Conv.pw := 128; Conv.psigned := false |} ?x)) with (to_u128 bits x);
+       pose proof (PfBits.bitlen_nonneg (eval a)) as Hs1; pose proof (PfBits.bitlen_le (eval a) bits Ra H0) as Hs2;
+       set (s := RunC06.bitlen (eval a)) in *.
+  all: destruct (s <=? 64).
+  all: try (rewrite (to_u64_cases bits a H0 Ca), (to_u64_cases bits b H0 Cb);
+            destruct (Z.ltb_spec (eval a) B); [|reflexivity]; cbn [obind];
+            destruct (Z.ltb_spec (eval b) B); [|reflexivity]; cbn [obind];
+            rewrite g_mat_from_u64_eq by (unfold word; lia);
+            destruct (from_u64 (eval a) (eval b)); reflexivity).
+  all: destruct (Z.leb_spec s 128).
+  all: try (rewrite (to_u128_cases bits a H0 Ca), (to_u128_cases bits b H0 Cb);
+            destruct (Z.ltb_spec (eval a) BB); [|reflexivity]; cbn [obind];
+            destruct (Z.ltb_spec (eval b) BB); [|reflexivity]; cbn [obind];
+            rewrite g_mat_from_u128_prefix_eq by lia;
+            destruct (from_u128_prefix (eval a) (eval b)); reflexivity).
+  all: rewrite chk64_ok by lia; cbn [obind];
+       destruct (g_shift_wrappers_eq bits a (s - 128) H0 ltac:(lia) La ltac:(lia)) as (_ & _ & _ & _ & Ea);
+       destruct (g_shift_wrappers_eq bits b (s - 128) H0 ltac:(lia) Lb ltac:(lia)) as (_ & _ & _ & _ & Eb);
+       rewrite Ea, Eb; cbn [obind];
+       destruct (PfShift.wrapping_shr_spec bits a (s - 128) H0 Ca ltac:(lia)) as [Ca' _];
+       destruct (PfShift.wrapping_shr_spec bits b (s - 128) H0 Cb ltac:(lia)) as [Cb' _];
+       pose proof (canon_range bits _ H0 Ca') as Ra'; pose proof (canon_range bits _ H0 Cb') as Rb';
+       rewrite (to_u128_cases bits _ H0 Ca'), (to_u128_cases bits _ H0 Cb');
+       destruct (Z.ltb_spec (eval (Shift.wrapping_shr bits a (s - 128))) BB); [|reflexivity]; cbn [obind];
+       destruct (Z.ltb_spec (eval (Shift.wrapping_shr bits b (s - 128))) BB); [|reflexivity]; cbn [obind];
+       rewrite g_mat_from_u128_prefix_eq by lia;
+       destruct (from_u128_prefix _ _); reflexivity.
+Qed.
